@@ -59,13 +59,13 @@ def handle : Handler
       let n ← n.toNat?; let k ← k.toNat?
       let (rc, _, st) := dupUstrings k n
       pure (summary rc st.evs)
-  | ["names", n, k] => do
-      let n ← n.toNat?; let k ← k.toNat?
-      let (rc, _, st) := getNamesPinned k n
-      pure (summary rc st.evs)
-  | ["namesfixed", n, k] => do                 -- the repaired variant (used when testing the proposed patch by hand)
+  | ["names", n, k] => do                      -- the code as repaired by /repo commit 0850ab1
       let n ← n.toNat?; let k ← k.toNat?
       let (rc, _, st) := getNames k n
+      pure (summary rc st.evs)
+  | ["namespinned", n, k] => do                -- the pinned behaviour (node leak), kept for the counterexample theorem
+      let n ← n.toNat?; let k ← k.toNat?
+      let (rc, _, st) := getNamesPinned k n
       pure (summary rc st.evs)
   | "clone" :: rest => do
       let (sh, r) ← parseShape (rest.length + 1) rest
